@@ -158,3 +158,18 @@ package mapset
 //@   loop 1: invariant own: out != nil && fresh(out) && old_maps_unchanged(out) && old_maps_unchanged(m)
 //@   loop 1: invariant members: forall x U :: {x in out} x in out <==> (exists k T :: k in seen1 && m[k] == x)
 //@   loop 1: invariant seen: forall k T :: {k in seen1} k in seen1 ==> k in m
+//@
+// Range: the iterator parameter is an arbitrary range function (it calls its argument some number of times); the
+// result is a fresh non-nil set holding exactly the values it was given (ghost vals, n: the values in call order;
+// at: for every member, a call that gave it).
+//@ func Range
+//@   ghostret vals imap[T], n int, at gmap[T]int
+//@   ensures [C18] nonnil: result != nil && fresh(result)
+//@   ensures [C18] given: n >= 0 && forall k int :: {vals[k]} 0 <= k && k < n ==> vals[k] in result
+//@   ensures [C18] only: forall x T :: {x in result} x in result ==> 0 <= at[x] && at[x] < n && vals[at[x]] == x
+//@   loop 1: invariant [C18] own: out != nil && fresh(out) && old_maps_unchanged(out)
+//@   loop 1: invariant [C18] given: forall k int :: {yarg1[k]} 0 <= k && k < it1 ==> yarg1[k] in out
+//@   loop 1: invariant [C18] only: forall x T :: {x in out} x in out ==> 0 <= at[x] && at[x] < it1 && yarg1[at[x]] == x
+//@   at after "out.Add(v)": ghost at[v] = it1
+//@   at loop 1 exit: ghost vals = yarg1
+//@   at loop 1 exit: ghost n = yn1
